@@ -180,6 +180,27 @@ class Unit:
         self.lemmas[name] = props.split() if isinstance(props, str) else list(props)
         self.chunks.append('/*@F<lemma:%s*/\n%s\n/*@F>*/' % (name, text.strip()))
 
+    def lemma_file(self, text, props, prefix=''):
+        """Emit a file of spec-level lemmas; every `proof fn` becomes one named obligation tagged with `props`."""
+        msk = mask(text)
+        out = []
+        pos = 0
+        for m in re.finditer(r'(?m)^[ \t]*(pub\s+)?proof\s+fn\s+([A-Za-z_][A-Za-z0-9_]*)', msk):
+            name = m.group(2)
+            k = m.end()
+            from .rs import match_close
+            while k < len(msk) and msk[k] != '{':
+                if msk[k] in '([':
+                    k = match_close(msk, k)
+                k += 1
+            end = match_close(msk, k) + 1
+            out.append(text[pos:m.start()])
+            out.append('/*@F<lemma:%s*/\n%s\n/*@F>*/' % (prefix + name, text[m.start():end]))
+            self.lemmas[prefix + name] = props.split() if isinstance(props, str) else list(props)
+            pos = end
+        out.append(text[pos:])
+        self.chunks.append(''.join(out))
+
     def skip(self, path, why):
         self.not_under_contract.append('%s (%s)' % (path, why))
 
